@@ -24,6 +24,8 @@ import (
 	"verif/harness/vt"
 )
 
+var viaView = []byte("pushed through the view")
+
 type ClientCall struct {
 	Method string `json:"method"`
 	Repo   string `json:"repo"`
@@ -57,7 +59,8 @@ func runClient(s ClientScript, v *vt.V) {
 	}
 	mem.PushBlob(ctx, p+"/x", ociregistry.Descriptor{MediaType: "application/octet-stream", Digest: id, Size: int64(len(inside))}, bytes.NewReader(inside))
 	mem.PushManifest(ctx, p+"/x", "latest", inside, "application/vnd.verif.opaque")
-	before := snapshotOutside(ctx, mem, kept, []digest.Digest{sd, id})
+	kept = append(kept, "secret/new")
+	before := snapshotOutside(ctx, mem, kept, []digest.Digest{sd, id, digest.FromBytes(viaView)})
 
 	srv := memnet.NewServer(ociserver.New(mem, nil))
 	defer srv.Close()
@@ -117,16 +120,34 @@ func runClient(s ClientScript, v *vt.V) {
 		case "PushManifest":
 			view.PushManifest(ctx, c.Repo, "latest", []byte("overwritten through the view"), "application/vnd.verif.opaque")
 		case "PushBlob":
-			b := []byte("pushed through the view")
+			b := viaView
 			view.PushBlob(ctx, c.Repo, ociregistry.Descriptor{MediaType: "application/octet-stream", Digest: digest.FromBytes(b), Size: int64(len(b))}, bytes.NewReader(b))
 		case "MountBlob":
 			view.MountBlob(ctx, c.From, c.Repo, dg)
 		case "Tags":
 			ociregistry.All(view.Tags(ctx, c.Repo, ""))
+		case "ResumeRewritten":
+			// an upload id obtained through the view, rewritten to name a repository outside the
+			// prefix, then resumed through the view
+			if w, err := view.PushBlobChunked(ctx, "x", 0); err == nil {
+				id := w.ID()
+				w.Close()
+				for _, target := range []string{"other/blah", "secret/new", p} {
+					id2 := strings.Replace(id, "/v2/"+p+"/x/", "/v2/"+target+"/", 1)
+					if id2 == id {
+						continue
+					}
+					if w2, err := view.PushBlobChunkedResume(ctx, "x", id2, 0, 0); err == nil {
+						w2.Write(viaView)
+						w2.Commit(digest.FromBytes(viaView))
+						w2.Close()
+					}
+				}
+			}
 		case "Chunked":
 			if w, err := view.PushBlobChunked(ctx, c.Repo, 0); err == nil {
-				w.Write([]byte("pushed through the view"))
-				w.Commit(digest.FromBytes([]byte("pushed through the view")))
+				w.Write(viaView)
+				w.Commit(digest.FromBytes(viaView))
 				w.Close()
 			}
 		default:
@@ -142,7 +163,7 @@ func runClient(s ClientScript, v *vt.V) {
 			}
 		}
 	}
-	after := snapshotOutside(ctx, mem, kept, []digest.Digest{sd, id})
+	after := snapshotOutside(ctx, mem, kept, []digest.Digest{sd, id, digest.FromBytes(viaView)})
 	if stripInside(before, p) != stripInside(after, p) {
 		v.Failf("frame", "Sub(client,%q): content outside %q changed through the view (calls %+v):\nbefore:\n%s\nafter:\n%s", p, p+"/", s.Calls, stripInside(before, p), stripInside(after, p))
 		return
@@ -160,7 +181,7 @@ func runClient(s ClientScript, v *vt.V) {
 var propClient = &vt.Prop[ClientScript]{
 	ID:   "C13",
 	Name: "SubOverClientConfinement",
-	Rule: "the view is laid over an ociclient talking (in-memory HTTP) to an ociserver over ocimem; the backend holds siblings outside the prefix (other, other/blah, <prefix>ey/x, <prefix> itself, the prefix's first element, zz) with a secret blob and a tagged manifest, and one repository inside; 1-6 calls (reads, deletes, pushes, mounts in both directions, chunked uploads, tag listings) use names that contain URL syntax ('?', '#', '&', '=', percent escapes, injected query parameters such as mount= and from=, fragments that cut the path short) besides dot segments and well-formed names; oracle = no read returns the outside content, the outside content never becomes readable inside the view, and everything outside the prefix is unchanged afterwards; non-trivial = some name contains URL syntax; distinct = (prefix, calls)",
+	Rule: "the view is laid over an ociclient talking (in-memory HTTP) to an ociserver over ocimem; the backend holds siblings outside the prefix (other, other/blah, <prefix>ey/x, <prefix> itself, the prefix's first element, zz) with a secret blob and a tagged manifest, and one repository inside; 1-6 calls (reads, deletes, pushes, mounts in both directions, chunked uploads, tag listings, and resuming an upload id obtained through the view after rewriting it to name a repository outside) use names that contain URL syntax ('?', '#', '&', '=', percent escapes, injected query parameters such as mount= and from=, fragments that cut the path short) besides dot segments and well-formed names; oracle = no read returns the outside content, the outside content never becomes readable inside the view, and everything outside the prefix is unchanged afterwards; non-trivial = some name contains URL syntax; distinct = (prefix, calls)",
 	Gen: func(t *rapid.T) ClientScript {
 		s := ClientScript{Prefix: rapid.SampledFrom([]string{"p", "foo", "foo/bar"}).Draw(t, "prefix"), Nested: rapid.IntRange(0, 3).Draw(t, "nested") == 0}
 		sd := digest.FromBytes([]byte("content that exists only outside the prefix")).String()
@@ -174,7 +195,7 @@ var propClient = &vt.Prop[ClientScript]{
 		}
 		n := rapid.IntRange(1, 6).Draw(t, "ncalls")
 		for i := 0; i < n; i++ {
-			c := ClientCall{Method: rapid.SampledFrom([]string{"GetBlob", "GetManifest", "GetTag", "ResolveBlob", "DeleteBlob", "DeleteManifest", "DeleteTag", "PushManifest", "PushBlob", "MountBlob", "MountBlob", "Tags", "Chunked"}).Draw(t, "method")}
+			c := ClientCall{Method: rapid.SampledFrom([]string{"GetBlob", "GetManifest", "GetTag", "ResolveBlob", "DeleteBlob", "DeleteManifest", "DeleteTag", "PushManifest", "PushBlob", "MountBlob", "MountBlob", "Tags", "Chunked", "ResumeRewritten"}).Draw(t, "method")}
 			c.Repo = name("repo")
 			c.Ref = rapid.SampledFrom([]string{"secret", "secret", "inside"}).Draw(t, "ref")
 			if c.Method == "MountBlob" {
